@@ -4,6 +4,10 @@ import json, os
 HERE = os.path.dirname(os.path.dirname(os.path.abspath(__file__)))
 
 CHECKS = {
+ 'C09': dict(level='model_checking', design='2/C09',
+   technique='deviation-bounded stateless DFS over packet-delivery order and injected crash/close actions (cut, close/abort/disconnect of either connection, close/abort/exit of the channel on either side) at every quiescent point, real client<->server with outstanding awaits; termination + callback-order oracles at quiescence',
+   text='Client programs with outstanding awaits (create_session, stream read/drain, run, SFTP requests, remote port forward, wait_closed) run against six server behaviours; at every quiescent point the explorer delivers either next packet or injects an action; all schedules within the deviation bound end with loss of the connection. Oracles: once CHANNEL_CLOSE went both ways on a live connection the channel is unregistered and its waiters resolved; after connection loss every awaited task is done, session callback words are legal with connection_lost exactly once and nothing after it, owners notified once, no channel/listener/global-request waiter left, no task pending, loop handler silent.',
+   note='bound 2 for the exec program in quick, 1 elsewhere (thorough: 2 everywhere); virtual listeners only.'),
  'C08': dict(level='model_checking', design='2/C08',
    technique='deviation-bounded DFS over WINDOW_ADJUST grant sequences against a window ledger kept by an independent peer; exhaustive bounded enumeration of hostile data/pause/resume sequences; deviation-bounded DFS over delivery and reader-wakeup interleavings of the real stream API for deadlock',
    text='Sender: for each role, initial window, max packet and write list, every 5-grant sequence from a menu within the deviation bound: ledger never negative, no packet above the max packet size, all data + EOF delivered once enough is granted. Receiver: every op sequence up to depth 4 (thorough 5) over data packets sized around the window, extended data, pause and resume: excess over the advertised window is a ProtocolError also while paused, legal data is accepted, and reading restores the window. Deadlock: real client/server stream sessions, write sizes around the window, reader call menus incl. a reader that lags behind delivery, all packet-delivery/wakeup interleavings within the bound: the reader always finishes with all bytes.',
